@@ -377,6 +377,8 @@ where
         let mut more_tokens = VecDeque::new();
 
         loop {
+            #[cfg(servo_html5ever_verif)]
+            markup5ever::verif_hooks::tick("xml tree builder step");
             let phase = self.phase.get();
 
             #[allow(clippy::unused_unit)]
